@@ -63,6 +63,11 @@ def run(ctx):
         if not it.get('cancel') or not res or not res.get('runs'):
             continue
         rr = res['runs'][0]
+        if res.get('watchdog'):
+            import engine_check
+            rp = {'kind': 'scenario', 'item': {k: it[k] for k in ('wf', 'oc', 'script', 'input', 'schedule', 'extra', 'cancel', 'nomeaning') if k in it}}
+            ctx.add('C06', 'run-did-not-return-after-cancellation', 'cancel at %s: %s' % (it['at'].split('#')[0], engine_check.classify_hang(res.get('stacks', ''))), rp)
+            continue
         if rr['cancel_ms'] < 0:
             continue
         ncancel += 1
